@@ -125,8 +125,8 @@ IdleRules(S) ==
   IF ~S.idle \/ S.who # "run" THEN <<>>
   ELSE SFail(\E k \in 1..Len(S.inodes) : Shrinking(S.inodes[k]), "C05:half-freed-object-when-idle")
 
-ZeroIno == [kind |-> 0, nlink |-> 0, gen |-> 0, size |-> 0, ssz |-> 0, blks |-> <<0, 0, 0, 0, 0, 0, 0, 0, 0, 0>>]
-Proj(in) == [kind |-> in.kind, nlink |-> in.nlink, gen |-> in.gen, size |-> in.size, ssz |-> in.ssz, blks |-> in.blks]
+ZeroIno == [kind |-> 0, nlink |-> 0, gen |-> 0, size |-> 0, ssz |-> 0, tm |-> <<0, 0, 0, 0>>, blks |-> <<0, 0, 0, 0, 0, 0, 0, 0, 0, 0>>]
+Proj(in) == [kind |-> in.kind, nlink |-> in.nlink, gen |-> in.gen, size |-> in.size, ssz |-> in.ssz, tm |-> in.tm, blks |-> in.blks]
 
 CacheRules(S) ==
   IF ~S.running THEN <<>>
